@@ -231,7 +231,7 @@ pub fn run(r: &Report) {
     r.sample(sub, json!({"op": "skip()", "input_hex": "819fff", "std+half": "Ok position 3", "none": "Err(message) (documented: requires alloc)"}));
     r.sample(sub, json!({"op": "f32()", "input_hex": "f93c00", "std+half": "Ok 1.0", "std": "Err(type mismatch) (documented: requires half)"}));
     r.assume("only x86_64-unknown-linux-gnu is installed: the 32-bit pointer-width and atomic32 branches cannot be built here");
-    r.assume("error message text is not part of the transcript (it is documented to differ); the bridge's error type exposes neither class predicates nor position; its class is read from the Debug rendering of the wrapped decode::Error (variant name; unreadable = unclassified), so serde operations are compared on Ok / error class / decoder position");
+    r.assume("error message text is not part of the transcript (it is documented to differ); the bridge's error type exposes neither class predicates nor position; its class and Error::position() are read from the Debug rendering of the wrapped decode::Error (variant name, `pos: Some(n)`; unreadable = unclassified / None), so serde operations are compared on Ok / error class / error position / decoder position");
 }
 
 /// The no-alloc part of C06: run the skip check inside the probe builds without `alloc`.
